@@ -22,7 +22,7 @@ PROJ = "openfisca_core.projectors"
 
 
 class GWorld:
-    def __init__(self, I, ctx, roles=False):
+    def __init__(self, I, ctx, roles=False, infinite=False):
         R = I.resolve_qualified
         self.N = ctx.fresh_int("N")
         self.G = ctx.fresh_int("G")
@@ -36,6 +36,10 @@ class GWorld:
         N, G = self.N, self.G
         self.eid = nparr.NArr(N, lambda j: Sym(self.EID(B._z(j))), "int", "members_entity_id")
         self.array = nparr.NArr(N, lambda j: Sym(self.A(B._z(j))), "float", "person-array")
+        if infinite:
+            # values may be +infinity (what min over a role nobody holds gives): an extended real per person
+            self.ISINF = z3.Function(ctx.fresh_name("IS_INFINITE"), z3.IntSort(), z3.BoolSort())
+            self.array = nparr.NArr(N, lambda j: nparr.MaybeInf(self.ISINF(B._z(j)), Sym(self.A(B._z(j)))), "float", "person-array")
         self.role_mask = nparr.NArr(N, lambda j: Sym(self.INROLE(B._z(j))), "bool", "has-role")
         self.entity = Obj(R("openfisca_core.entities.group_entity.GroupEntity"), {"key": "household"}, label="entity")
         self.members = Obj(R(POP), {"count": Sym(N)}, label="persons")
@@ -59,6 +63,17 @@ def binsum_checks(w, r, with_role):
     i = z3.Int("i_bs")
     fresh = z3.Int(f"i_sk_{id(r) % 100000}")
     rng = z3.And(fresh >= 0, fresh < w.N)
+    if hasattr(w, "ISINF"):
+        # extended reals: a person in the role contributes its value, infinite or not; a person outside contributes nothing at all
+        wt = r.weights(fresh)
+        inrole = w.INROLE(fresh) if with_role else z3.BoolVal(True)
+        if isinstance(wt, nparr.MaybeInf):
+            same = z3.And(wt.isinf == z3.And(inrole, w.ISINF(fresh)), z3.Implies(z3.Not(wt.isinf), B.zreal(wt.val) == z3.If(inrole, w.A(fresh), 0)))
+        else:
+            same = z3.And(z3.Not(z3.And(inrole, w.ISINF(fresh))), B.zreal(wt) == z3.If(inrole, w.A(fresh), 0))
+        return [("one-element-per-group-of-the-simulation", B._z(r.n) == w.G), ("every-person-is-summed", B._z(r.n_in) == w.N),
+                ("each-person-counts-in-its-own-group", z3.Implies(rng, B.zint(r.ids(fresh)) == w.EID(fresh))),
+                ("each-person-in-the-role-contributes-its-value-even-an-infinite-one-and-the-others-nothing", z3.Implies(rng, same))]
     want_w = z3.If(w.INROLE(fresh), w.A(fresh), 0) if with_role else w.A(fresh)
     return [("one-element-per-group-of-the-simulation", B._z(r.n) == w.G),
             ("every-person-is-summed", B._z(r.n_in) == w.N),
@@ -71,12 +86,13 @@ class GroupSum(Contract):
     name = f"{GPOP}.sum"
     prop = ("C10",)
     top_level = True
-    cases = ("no-role", "role")
+    cases = ("no-role", "role", "role-values-may-be-infinite")
     descr = ("the sum of a person array per group has one element per group of the simulation and adds exactly the values of the "
-             "members of that group (in the role)")
+             "members of that group (in the role) - members outside the role contribute nothing, whatever their value (an infinite "
+             "value outside the role does not reach the sum)")
 
     def setup(self, I, ctx, case):
-        w = GWorld(I, ctx, roles=case == "role")
+        w = GWorld(I, ctx, roles=case.startswith("role"), infinite=case.endswith("infinite"))
         ctx.ghost["gw"] = w
         return {"self": w.pop, "array": w.array, "role": w.role, "__w": w}
 
@@ -108,8 +124,10 @@ class GroupSum(Contract):
                 "inrole": [ev(w.INROLE(z3.IntVal(i))) is True for i in range(N)]}
 
     def probes(self, case):
-        return [{"callee": self.name, "script": NATIVE, "op": "sum", "role": case == "role", "count": 3, "eid": [0, 0, 1],
-                 "values": [1.0, 2.0, 4.0], "inrole": [True, False, True]}]
+        return [{"callee": self.name, "script": NATIVE, "op": "sum", "role": case != "no-role", "count": 3, "eid": [0, 0, 1],
+                 "values": [1.0, 2.0, 4.0], "inrole": [True, False, True]},
+                {"callee": self.name, "script": NATIVE, "op": "sum", "role": case != "no-role", "count": 3, "eid": [0, 0, 1, 1],
+                 "values": [1.0, "inf", 4.0, 5.0], "inrole": [True, False, True, True]}]
 
     def judge_native(self, I, case, call, nat):
         return judge(nat)
